@@ -525,7 +525,11 @@ def expand_tilde(pattern: AnyStr, is_unix: bool, flags: int) -> AnyStr:
         re_tilde = RE_WIN_TILDE[string_type] if not is_unix else RE_TILDE[string_type]  # type: Pattern[AnyStr]  # type: ignore[assignment]
         m = re_tilde.match(pattern, pos)
         if m:
-            expanded = os.path.expanduser(m.group(0))
+            try:
+                expanded = os.path.expanduser(m.group(0))
+            except ValueError:
+                # Not a user name the system can look up (embedded null, undecodable bytes): nothing to expand
+                expanded = m.group(0)
             if not expanded.startswith(tilde) and os.path.exists(expanded):
                 pattern = (pattern[0:1] if pos else pattern[0:0]) + escape(expanded, is_unix) + pattern[m.end(0):]
     return pattern
